@@ -180,6 +180,15 @@ func (w *Writer) recoverTail() error {
 	for i := len(commits) - 1; i >= 0; i-- {
 		ci := commits[i]
 
+		if ci.offset == ci.crcStart {
+			// A commit frame that covers no bytes at all. We never write one (every
+			// batch has at least one frame) but the checksum of nothing is zero, so
+			// stale bytes that look like a commit frame header followed by four
+			// zero bytes would pass the check below and stay in the file, in the
+			// middle of the committed data, for good.
+			continue
+		}
+
 		// We know this can't be bigger than the whole segment file because none of
 		// the values were read from the data just from the offsets we moved
 		// through.
